@@ -374,6 +374,16 @@ theorem c05_utf8_chunking_nocb (d : Utf8) (chunks chunks' : List (List UInt8)) (
   · rw [runChunksNoCb_eq, runChunksNoCb_eq, ← k.2.1]
   · rw [runChunksNoCb_eq, decodeUtf8NoCb_eq, k0.2.2]
 
+/-- the same when `on_codepoint` fails on its `k`-th call: for every chunking the run stops at the same point, with the
+callback's error or the decoder's, having handed over the same code points — and agrees with `aws_decode_utf8`. -/
+theorem c05_utf8_chunking_cbfail (k : Nat) (d : Utf8) (chunks chunks' : List (List UInt8)) (h : chunks.flatten = chunks'.flatten) :
+    runChunksFail k d chunks = runChunksFail k d chunks' ∧ runChunksFail k d chunks = runChunksFail k d [chunks.flatten] ∧
+    runChunksFail k Utf8.init chunks = decodeUtf8Fail k chunks.flatten := by
+  refine ⟨?_, ?_, ?_⟩
+  · rw [runChunksFail_flatten, runChunksFail_flatten, h]
+  · rw [runChunksFail_flatten, runChunksFail_flatten]; simp
+  · rw [runChunksFail_flatten]; unfold decodeUtf8Fail; rfl
+
 /-- `aws_utf8_decoder_finalize` leaves a fresh decoder, whatever happened before. -/
 theorem c05_utf8_finalize_resets (d : Utf8) : (finalize d).1 = Utf8.init := rfl
 
